@@ -18,6 +18,43 @@ impl RngCore for Replay {
 }
 impl CryptoRng for Replay {}
 
+/// fails on the first request (without writing), then behaves like `Replay`
+struct FailOnce(Replay, bool);
+impl RngCore for FailOnce {
+    fn next_u32(&mut self) -> u32 { unimplemented!() }
+    fn next_u64(&mut self) -> u64 { unimplemented!() }
+    fn fill_bytes(&mut self, _out: &mut [u8]) { unimplemented!() }
+    fn try_fill_bytes(&mut self, out: &mut [u8]) -> Result<(), rand_core::Error> {
+        if !self.1 {
+            self.1 = true;
+            return Err(rand_core::Error::from(core::num::NonZeroU32::new(rand_core::Error::CUSTOM_START + 1).unwrap()));
+        }
+        self.0.try_fill_bytes(out)
+    }
+}
+impl CryptoRng for FailOnce {}
+
+/// write raw value `v` into the `idx`-th field of `bits` bits starting at byte offset `base`
+fn set_field(buf: &mut [u8], base: usize, bits: usize, idx: usize, v: u32) {
+    for b in 0..bits {
+        let bit = base * 8 + idx * bits + b;
+        if (v >> b) & 1 == 1 {
+            buf[bit / 8] |= 1 << (bit % 8);
+        } else {
+            buf[bit / 8] &= !(1 << (bit % 8));
+        }
+    }
+}
+
+/// all bytes of the object's storage are zero after dropping it in place
+fn wiped_after_drop<T>(v: T) -> bool {
+    let mut slot = Box::new(core::mem::ManuallyDrop::new(v));
+    let size = core::mem::size_of::<T>();
+    let ptr = (&mut **slot as *mut T).cast::<u8>();
+    unsafe { core::mem::ManuallyDrop::drop(&mut *slot) };
+    (0..size).all(|i| unsafe { core::ptr::read_volatile(ptr.add(i)) } == 0)
+}
+
 fn h(tag: &str, seed: u64, set: u32, i: u32, j: u32) -> [u8; 32] {
     let mut s = Sha256::new();
     s.update(tag.as_bytes());
@@ -30,7 +67,7 @@ fn h(tag: &str, seed: u64, set: u32, i: u32, j: u32) -> [u8; 32] {
 
 #[allow(unused_macros)]
 macro_rules! probe {
-    ($m:ident, $set:expr, $seed:expr, $cases:expr) => {{
+    ($m:ident, $set:expr, $seed:expr, $cases:expr, $eta:expr, $K:expr, $L:expr) => {{
         use fips204::traits::{KeyGen, SerDes, Signer, Verifier};
         use fips204::Ph;
         let mut outer = Sha256::new();
@@ -77,6 +114,70 @@ macro_rules! probe {
         }
         let out: [u8; 32] = outer.finalize().into();
         println!("set={} digest={}", $set, hex(&out));
+        // ---- behaviour digest: API behaviours beyond the KATs (must not depend on the configuration) ----
+        {
+            let mut b = Sha256::new();
+            let bits: usize = if $eta == 2 { 3 } else { 4 };
+            let nfields: usize = ($K + $L) * 256;
+            let nb = if $cases < 32 { $cases } else { 32 };
+            for i in 0..nb {
+                let xi = h("xi", $seed, $set, i, 0);
+                let mfull = h("m", $seed, $set, i, 0);
+                let m = &mfull[..(i as usize * 7) % 33];
+                let (pk, sk) = fips204::$m::KG::keygen_from_seed(&xi);
+                let skb = sk.clone().into_bytes();
+                let pkb = pk.clone().into_bytes();
+                b.update(sk.get_public_key().into_bytes());
+                b.update(fips204::$m::PrivateKey::try_from_bytes(skb).expect("sk roundtrip").into_bytes());
+                b.update(fips204::$m::PublicKey::try_from_bytes(pkb).expect("pk roundtrip").into_bytes());
+                for v in (2 * $eta + 1)..(1u32 << bits) {
+                    let mut bad = skb;
+                    set_field(&mut bad, 128, bits, (i as usize * 131 + v as usize * 17) % nfields, v);
+                    b.update([u8::from(fips204::$m::PrivateKey::try_from_bytes(bad).is_err())]);
+                }
+                let long = [0x5Au8; 256];
+                let mut rng = Replay(h("rnd", $seed, $set, i, 0), 0);
+                let sig0 = sk.try_sign_with_rng(&mut rng, m, &[]).expect("sign");
+                let mut rng = Replay(h("rnd", $seed, $set, i, 0), 0);
+                let e1 = sk.try_sign_with_rng(&mut rng, m, &long).is_err();
+                let mut rng = Replay(h("rnd", $seed, $set, i, 0), 0);
+                let e2 = sk.try_hash_sign_with_rng(&mut rng, m, &long, &Ph::SHA256).is_err();
+                b.update([u8::from(e1), u8::from(e2), u8::from(pk.verify(m, &sig0, &long)), u8::from(pk.hash_verify(m, &sig0, &long, &Ph::SHA256))]);
+                let mut fr = FailOnce(Replay(h("rnd", $seed, $set, i, 1), 0), false);
+                let k_err = fips204::$m::try_keygen_with_rng(&mut fr).is_err();
+                let mut fr = FailOnce(Replay(h("rnd", $seed, $set, i, 1), 0), false);
+                let s_err = sk.try_sign_with_rng(&mut fr, m, &[]).is_err();
+                let mut fr = FailOnce(Replay(h("rnd", $seed, $set, i, 1), 0), false);
+                let hs_err = sk.try_hash_sign_with_rng(&mut fr, m, &[], &Ph::SHA512).is_err();
+                b.update([u8::from(k_err), u8::from(s_err), u8::from(hs_err)]);
+                #[allow(deprecated)]
+                {
+                    let si = fips204::$m::_internal_sign(&sk, m, &[], h("rnd", $seed, $set, i, 0)).expect("internal sign");
+                    b.update(si);
+                    b.update([u8::from(fips204::$m::_internal_verify(&pk, m, &si, &[]))]);
+                }
+                b.update([u8::from(wiped_after_drop(sk)), u8::from(wiped_after_drop(pk))]);
+            }
+            // crafted key: honest key of case 0 with every t0 field at one of the two range ends
+            let xi = h("xi", $seed, $set, 0, 0);
+            let (_, sk0) = fips204::$m::KG::keygen_from_seed(&xi);
+            let mut skc = sk0.into_bytes();
+            let t0_off = 128 + 32 * bits * ($K + $L);
+            let pat = h("t0pat", $seed, $set, 0, 0);
+            for f in 0..($K * 256) {
+                let bit = (pat[(f / 8) % 32] >> (f % 8)) & 1;
+                set_field(&mut skc, t0_off, 13, f, if bit == 1 { 0x1FFF } else { 0 });
+            }
+            let skc = fips204::$m::PrivateKey::try_from_bytes(skc).expect("crafted key accepted");
+            let nc = if $cases < 48 { $cases } else { 48 };
+            for j in 0..nc {
+                let msg = h("cm", $seed, $set, j, 0);
+                let mut rng = Replay(h("crnd", $seed, $set, j, 0), 0);
+                b.update(skc.try_sign_with_rng(&mut rng, &msg[..8], &[]).expect("crafted sign"));
+            }
+            let outb: [u8; 32] = b.finalize().into();
+            println!("set={} behave={}", $set, hex(&outb));
+        }
         #[cfg(feature = "dudect")]
         {
             let mut rng = Replay(h("dudect", $seed, $set, 0, 0), 0);
@@ -102,9 +203,9 @@ fn main() {
     let cases: u32 = args.get(2).and_then(|s| s.parse().ok()).unwrap_or(8);
     let _ = (seed, cases);
     #[cfg(feature = "ml-dsa-44")]
-    probe!(ml_dsa_44, 44u32, seed, cases);
+    probe!(ml_dsa_44, 44u32, seed, cases, 2, 4, 4);
     #[cfg(feature = "ml-dsa-65")]
-    probe!(ml_dsa_65, 65u32, seed, cases);
+    probe!(ml_dsa_65, 65u32, seed, cases, 4, 6, 5);
     #[cfg(feature = "ml-dsa-87")]
-    probe!(ml_dsa_87, 87u32, seed, cases);
+    probe!(ml_dsa_87, 87u32, seed, cases, 2, 8, 7);
 }
